@@ -67,6 +67,11 @@ func Alphabet(w, h int, reduced bool) []string {
 	add(Csi("r", ""), Csi("r", "1;2"), Csi("r", "2;3"), Csi("r", "2;2"), Csi("r", fmt.Sprintf("1;%d", h+1)),
 		Csi("r", fmt.Sprintf("2;%d", h+3)), Csi("r", "0;0"), Csi("r", "2"))
 	add(Csi("m", "41"), Csi("m", "0"))
+	if !reduced {
+		// round 3: parameters beyond the second (ignored by a VT), RIS, OSC 8 open / close
+		add(Csi("H", "2;2;7"), Csi("r", "1;2;9"), "esc "+hx.Hex("c"),
+			"osc "+hx.Hex("8;;http://a")+" 0", "osc "+hx.Hex("8;;")+" 0")
+	}
 	// de-duplicate (tiny sizes make some parameters coincide)
 	seen := map[string]bool{}
 	var out []string
